@@ -184,6 +184,9 @@ def _run(cfg):
             return rnd.choice([0.0, 0.5, 0.5, 1.0])
         if pat == "const":
             return 0.25
+        if pat == "decay":        # rewards fall with time: an early validation outscores every later one of the same point
+            reward.t = getattr(reward, "t", 0) + 1
+            return round((1.0 - reward.t / float(T + 1)) * 2 * RU) / RU
         rel = [int((pt[x] - box[x][0]) / (box[x][1] - box[x][0]) * (1 << 30)) for x in range(D)]
         return A.peak_reward(rel, rnd, RU)
 
@@ -209,7 +212,7 @@ def _run(cfg):
             call("glp", lambda: rec.glp())
             if rec.failed:
                 break
-        call("recv", lambda: rec.recv(t0 + i, r, rcode=sink.rcode(r)))
+        call("recv", lambda: rec.recv(t0 + i, R.cast_reward(r, cfg.get("rtype")), rcode=sink.rcode(r)))
         if rec.failed:
             break
         if i in queries:
